@@ -1192,3 +1192,19 @@ add('C01', 'twin', 'left-right-dict-table', [(P, '''    if isinstance(value, lis
     elif isinstance(value, set):
         left = LBRACE
         right = RBRACE''')])
+add('C13', 'breaker', 'fast-path-includes-tuple', [(P, '''def _run_pretty(pretty_fn, value, ctx, trailing_comment=None):
+    if ctx.is_visited(value):''', '''_ACYCLIC_TYPES = (int, float, str, bytes, tuple)
+
+
+def _run_pretty(pretty_fn, value, ctx, trailing_comment=None):
+    if type(value) in _ACYCLIC_TYPES:
+        return _run_pretty_visited(pretty_fn, value, ctx, trailing_comment)
+    if ctx.is_visited(value):''')], 'C13.a')
+add(('C13', 'C14'), 'twin', 'fast-path-leaf-types-only', [(P, '''def _run_pretty(pretty_fn, value, ctx, trailing_comment=None):
+    if ctx.is_visited(value):''', '''_ACYCLIC_TYPES = (int, float, str, bytes)
+
+
+def _run_pretty(pretty_fn, value, ctx, trailing_comment=None):
+    if type(value) in _ACYCLIC_TYPES:
+        return _run_pretty_visited(pretty_fn, value, ctx, trailing_comment)
+    if ctx.is_visited(value):''')])
